@@ -233,6 +233,34 @@ impl Expression {
     }
 }
 
+/// The priority of a binary operator; a higher value binds tighter:
+/// `*` `/`, then `MOD`, then `+` `-`, then the relational operators, then `AND`, then `OR`.
+fn binary_priority(op: Operator) -> u8 {
+    match op {
+        Operator::Multiply | Operator::Divide => 6,
+        Operator::Modulo => 5,
+        Operator::Plus | Operator::Minus => 4,
+        Operator::Less
+        | Operator::LessOrEqual
+        | Operator::Equal
+        | Operator::GreaterOrEqual
+        | Operator::Greater
+        | Operator::NotEqual => 3,
+        Operator::And => 1,
+        Operator::Or => 0,
+    }
+}
+
+/// The priority of a unary operator, on the scale of `binary_priority`:
+/// unary minus binds tighter than every binary operator,
+/// `NOT` sits between the relational operators and `AND`.
+fn unary_priority(op: UnaryOperator) -> u8 {
+    match op {
+        UnaryOperator::Minus => 7,
+        UnaryOperator::Not => 2,
+    }
+}
+
 // TODO #[deprecated]
 pub trait ExpressionPosTrait {
     fn flip_binary(self) -> Self;
@@ -276,18 +304,33 @@ impl ExpressionPosTrait for ExpressionPos {
         self.binary_expr(op, right_side, pos)
     }
 
+    /// Combines `self <op> right_side`, where `right_side` is the already
+    /// correctly grouped rest of the expression.
+    ///
+    /// As long as the operator binds at least as tightly as the operator at the
+    /// root of the right side, it belongs to that root's left operand
+    /// (operators of equal priority group left to right), e.g.
+    /// `A * (B MOD C + D)` becomes `((A * B) MOD C) + D`.
     fn binary_expr(self, op: Operator, right_side: Self, pos: Position) -> Self {
-        let result = Expression::BinaryExpression(
-            op,
-            Box::new(self),
-            Box::new(right_side),
-            ExpressionType::Unresolved,
-        )
-        .at_pos(pos);
-        if result.should_flip_binary() {
-            result.flip_binary()
-        } else {
-            result
+        let Self {
+            element: r_element,
+            pos: r_pos,
+        } = right_side;
+        match r_element {
+            Expression::BinaryExpression(r_op, r_left, r_right, r_type)
+                if binary_priority(op) >= binary_priority(r_op) =>
+            {
+                let new_left = self.binary_expr(op, *r_left, pos);
+                Expression::BinaryExpression(r_op, Box::new(new_left), r_right, r_type)
+                    .at_pos(r_pos)
+            }
+            _ => Expression::BinaryExpression(
+                op,
+                Box::new(self),
+                Box::new(r_element.at_pos(r_pos)),
+                ExpressionType::Unresolved,
+            )
+            .at_pos(pos),
         }
     }
 
@@ -295,19 +338,17 @@ impl ExpressionPosTrait for ExpressionPos {
     ///
     /// `NOT A AND B` would be parsed as `NOT (A AND B)`, needs to flip into `(NOT A) AND B`
     fn apply_unary_priority_order(self, op: UnaryOperator, op_pos: Position) -> Self {
-        if self.should_flip_unary(op) {
-            let Self { element, pos } = self;
-            match element {
-                Expression::BinaryExpression(r_op, r_left, r_right, _) => {
-                    // apply the unary operator to the left of the binary expr
-                    let new_left = Expression::UnaryExpression(op, r_left).at_pos(op_pos);
-                    // and nest it as left inside a binary expr
-                    new_left.binary_expr(r_op, *r_right, pos)
-                }
-                _ => panic!("should_flip_unary internal error"),
+        let Self { element, pos } = self;
+        match element {
+            // the unary operator binds tighter than the operator at the root
+            // of its operand, so it belongs to that root's left operand
+            Expression::BinaryExpression(r_op, r_left, r_right, r_type)
+                if unary_priority(op) > binary_priority(r_op) =>
+            {
+                let new_left = r_left.apply_unary_priority_order(op, op_pos);
+                Expression::BinaryExpression(r_op, Box::new(new_left), r_right, r_type).at_pos(pos)
             }
-        } else {
-            Expression::UnaryExpression(op, Box::new(self)).at_pos(op_pos)
+            _ => Expression::UnaryExpression(op, Box::new(element.at_pos(pos))).at_pos(op_pos),
         }
     }
 }
